@@ -350,6 +350,10 @@ func verifGenDelete(t *verifTable, tag string) verifStmt {
 func verifGenUpdate(t *verifTable, tag string, slen int) verifStmt {
 	op := verifCompOps[verifChoice(tag+"op", verifParam("nops", len(verifCompOps)))]
 	x := int64(verifI32(tag + "x"))
+	if verifParam("updall", 0) == 1 {
+		// every row (the prefix rows have a >= 0): a statement with as many row operations as the table has rows
+		op, x = sql.GT, -1
+	}
 	nb := verifI64(tag + "nb")
 	ns := verifString(tag+"ns", slen)
 	st := sql.UpdateStatementSearched{TableName: t.name,
